@@ -16,7 +16,9 @@ def cases(tier):
         for k in ((1,) if tier == 'quick' else (1, 2, 3, 4)):
             L.append(fsm_case('C09', fx, 'imm%d_subst' % k, ['P_C09', 'ENTRY=2', 'KIND=%d' % k, 'CB_BUDGET=1', 'CB_KINDS=0x1e'], timeout=900 * T, witness=False))
         L.append(fsm_case('C09', fx, 'sched', ['P_C09', 'ENTRY=2', 'KIND=7', 'CB_BUDGET=0'], timeout=300 * T, witness=False)) if False else None
-    return [c for c in L if c is not None]
+    L = [c for c in L if c is not None]
+    mark_cover(L, ['c09.f5.imm1_subst'])
+    return L
 
 def run(tier, seed):
     shutil.rmtree(os.path.join(BUILD, 'C09'), ignore_errors=True)
